@@ -339,6 +339,11 @@ func (r *runner) runCurved(o tlc.Opts) {
 		Xor     []int        `json:"xor,omitempty"`
 		Not     []int        `json:"not,omitempty"`
 		Div     []int        `json:"div,omitempty"`
+		Mand    []int        `json:"mand,omitempty"`
+		Mor     []int        `json:"mor,omitempty"`
+		Mxor    []int        `json:"mxor,omitempty"`
+		Mnot    []int        `json:"mnot,omitempty"`
+		Mdiv    []int        `json:"mdiv,omitempty"`
 	}
 	var hdr cline
 	ch := make(chan []byte, 4096)
@@ -365,15 +370,20 @@ func (r *runner) runCurved(o tlc.Opts) {
 			if _, dup := r.seen.LoadOrStore(key, true); !dup {
 				atomic.AddInt64(&r.nontriv, 1)
 			}
-			e := latgeo.CurvedEmbeddings[int(hash(key))%len(latgeo.CurvedEmbeddings)]
-			s := &Scenario{Kind: "bool", S: hdr.S, Samples: hdr.Samples, CP: l.P, CQ: l.Q, Emb: e, Space: "curved",
-				Exp: map[string][]int{"and": l.And, "or": l.Or, "xor": l.Xor, "not": l.Not, "div": l.Div}}
-			ms := exec(s, false)
-			c.Count(5, 0, 1)
-			if k%5000 == 11 {
-				c.Sample(map[string]any{"curved_p": l.P.SVG(), "curved_q": l.Q.SVG(), "expected_and": l.And})
+			// a large-scale embedding (exact cells) and a natural-scale one (cells with the flattening margin)
+			for ei, e := range []latgeo.Emb{latgeo.CurvedEmbeddings[int(hash(key))%len(latgeo.CurvedEmbeddings)], latgeo.NaturalEmbeddings[int(hash(key)/7)%len(latgeo.NaturalEmbeddings)]} {
+				exp := map[string][]int{"and": l.And, "or": l.Or, "xor": l.Xor, "not": l.Not, "div": l.Div}
+				if ei == 1 {
+					exp = map[string][]int{"and": l.Mand, "or": l.Mor, "xor": l.Mxor, "not": l.Mnot, "div": l.Mdiv}
+				}
+				s := &Scenario{Kind: "bool", S: hdr.S, Samples: hdr.Samples, CP: l.P, CQ: l.Q, Emb: e, Space: "curved", Exp: exp}
+				ms := exec(s, false)
+				c.Count(5, 0, 1)
+				if k%5000 == 11 && ei == 0 {
+					c.Sample(map[string]any{"curved_p": l.P.SVG(), "curved_q": l.Q.SVG(), "expected_and": l.And})
+				}
+				c.Report(s, ms)
 			}
-			c.Report(s, ms)
 		})
 		close(done)
 	}()
